@@ -61,6 +61,7 @@ RowViol(n) ==
      \* only a MISSING type is defaulted: a declared type is the simulator's type, whatever its version
      \cup (IF r.out = "ok" /\ r.hastype /\ r.type_seen # r.decl_type THEN {"C15_declared_type_not_respected"} ELSE {})
      \cup (IF r.out = "ok" /\ ~r.sameobs THEN {"C15_sees_different_scheduling_or_data_than_current_version"} ELSE {})
+     \cup (IF ~r.extra_ok THEN {"C15_extra_method_call_lost_or_altered"} ELSE {})
 
 VARIABLE k
 Init == k = 1
